@@ -8,7 +8,10 @@
 //   hist <op>;<op>;...        (hists …: the same with DriverParameters.Serialize = true)
 //
 // Environment ops (done by the parent, they stand for "what was on disk before" / "time passes"):
-//   seed:<B>:intact|corrupt|trash   plant a copy of body B (intact / corrupt block file, trashed copy)
+//   seed:<B>:intact|corrupt|longer|shorter|trash
+//                                   plant a copy of body B: intact block file; damaged block file
+//                                   (corrupt = other bytes, longer = the block followed by extra bytes,
+//                                   shorter = the first half of the block); trashed intact copy
 //   tick                            every timestamp becomes old, every trash deadline expires, a full
 //                                   marker becomes stale
 //   full                            the volume is marked full the way keepstore marks it itself:
@@ -31,6 +34,11 @@
 //                                   after jb chunks, A runs to its end (acknowledged), then B is
 //                                   cancelled (end=cancel), runs to its end (finish) or the process is
 //                                   killed (kill)
+//   pool:<S>:<A>:<B>:<ja>           buffer-pool reuse in one process: while another request holds a buffer,
+//                                   an upload of S is cut short by the client (half the announced body:
+//                                   500); then PUT A is held when its WriteBlock has read ja chunks of
+//                                   4096 bytes, PUT B runs from start to end, A is released. (One P, GC
+//                                   off, so that sync.Pool's choice of buffer does not depend on luck.)
 //   touch:<B>:<mode>  del:<B>:<lt>:<mode>  untrash:<B>:<mode>  empty:<mode>     mode = run | k<i>
 // k<i>: SIGKILL itself when the i-th verifPoint (0-based, counted over the whole op) is reached;
 // c<i>: cancel the request context (CloseNotify) at that point instead.
@@ -57,6 +65,7 @@ import (
 	"os/signal"
 	"path/filepath"
 	"runtime"
+	"runtime/debug"
 	"sort"
 	"strconv"
 	"strings"
@@ -299,7 +308,7 @@ func TestVerifC02Child(t *testing.T) {
 	f := strings.Split(spec, ":")
 	mode := f[len(f)-1]
 	target := -1
-	if f[0] != "put2" && len(mode) > 1 && (mode[0] == 'k' || mode[0] == 'c') {
+	if f[0] != "put2" && f[0] != "pool" && len(mode) > 1 && (mode[0] == 'k' || mode[0] == 'c') {
 		target, _ = strconv.Atoi(mode[1:])
 	}
 	faultAt := -1
@@ -313,7 +322,7 @@ func TestVerifC02Child(t *testing.T) {
 		}
 	}
 	midAfter, midChunk := -1, 0
-	if f[0] != "put2" && len(mode) > 1 && mode[0] == 'm' {
+	if f[0] != "put2" && f[0] != "pool" && len(mode) > 1 && mode[0] == 'm' {
 		jc := strings.Split(mode[1:], "x")
 		if len(jc) != 2 {
 			panic("bad m mode")
@@ -336,7 +345,7 @@ func TestVerifC02Child(t *testing.T) {
 	resp := &verifC02Resp{ResponseRecorder: httptest.NewRecorder(), closed: make(chan bool, 1)}
 	handlerDone := make(chan struct{})
 	var gate *verifC02Gate
-	if f[0] == "put" || f[0] == "put2" {
+	if f[0] == "put" || f[0] == "put2" || f[0] == "pool" {
 		mnt := srv.volmgr.AllWritable()[0]
 		gate = &verifC02Gate{UnixVolume: mnt.Volume.(*UnixVolume)}
 		mnt.Volume = gate
@@ -508,6 +517,61 @@ func TestVerifC02Child(t *testing.T) {
 			time.Sleep(time.Millisecond)
 		}
 		result = fmt.Sprintf("%d&%d", a.resp.Code, b.resp.Code)
+	case "pool":
+		runtime.GOMAXPROCS(1)
+		debug.SetGCPercent(-1)
+		bodyS, bodyA, bodyB := verifC02Body(f[1]), verifC02Body(f[2]), verifC02Body(f[3])
+		ja, _ := strconv.Atoi(f[4])
+		held := bufs.Get(BlockSize) // some other request is in flight and holds a buffer
+		_ = held
+		// the client announces len(S) bytes, sends half of them and goes away
+		respS := &verifC02Resp{ResponseRecorder: httptest.NewRecorder(), closed: make(chan bool, 1)}
+		reqS := verifC02Request("PUT", "/"+verifC02Hash(bodyS), bodyS)
+		reqS.Body = ioutil.NopCloser(bytes.NewReader(bodyS[:len(bodyS)/2]))
+		srv.handler.ServeHTTP(respS, reqS)
+		paused, resume, doneA := make(chan struct{}), make(chan struct{}), make(chan struct{})
+		var wrapMu sync.Mutex
+		nWrap := 0
+		gate.wrap = func(ctx context.Context, r io.Reader) io.Reader {
+			wrapMu.Lock()
+			i := nWrap
+			nWrap++
+			wrapMu.Unlock()
+			if i != 0 {
+				return r
+			}
+			return &verifC02GateReader{inner: r, chunk: 4096, cancelAfter: ja, fire: func() {
+				close(paused)
+				<-resume
+			}}
+		}
+		respA := &verifC02Resp{ResponseRecorder: httptest.NewRecorder(), closed: make(chan bool, 1)}
+		respB := &verifC02Resp{ResponseRecorder: httptest.NewRecorder(), closed: make(chan bool, 1)}
+		go func() {
+			srv.handler.ServeHTTP(respA, verifC02Request("PUT", "/"+verifC02Hash(bodyA), bodyA))
+			close(doneA)
+		}()
+		select {
+		case <-paused:
+		case <-doneA:
+			say("R no-overlap")
+			os.Exit(0)
+		case <-time.After(60 * time.Second):
+			say("R pool-timeout")
+			os.Exit(0)
+		}
+		srv.handler.ServeHTTP(respB, verifC02Request("PUT", "/"+verifC02Hash(bodyB), bodyB))
+		close(resume)
+		select {
+		case <-doneA:
+		case <-time.After(60 * time.Second):
+			say("R pool-timeout")
+			os.Exit(0)
+		}
+		for i := 0; i < 20000 && verifC02WriterRunning(); i++ {
+			time.Sleep(time.Millisecond)
+		}
+		result = fmt.Sprintf("%d&%d&%d", respS.Code, respA.Code, respB.Code)
 	case "touch":
 		body := verifC02Body(f[1])
 		srv.handler.ServeHTTP(resp, verifC02Request("TOUCH", "/"+verifC02Hash(body), nil))
@@ -681,6 +745,12 @@ func (h *verifC02Hist) seed(spec, kind string) {
 	case "corrupt":
 		p = filepath.Join(dir, hash)
 		body = verifC02Corrupt(body)
+	case "longer":
+		p = filepath.Join(dir, hash)
+		body = append(append([]byte{}, body...), []byte("EXTRA")...)
+	case "shorter":
+		p = filepath.Join(dir, hash)
+		body = body[:len(body)/2]
 	case "trash":
 		p = filepath.Join(dir, fmt.Sprintf("%s.trash.%d", hash, verifC02Future))
 	default:
@@ -846,6 +916,13 @@ func verifC02Run(line string, tmp string, n int) (out string) {
 		case g[0] == "put" && len(g) == 3, g[0] == "touch" && len(g) == 3, g[0] == "untrash" && len(g) == 3,
 			g[0] == "del" && len(g) == 4, g[0] == "wb" && len(g) == 6, g[0] == "put2" && len(g) == 6:
 			h.note(g[1])
+			r := h.child(op)
+			h.normalise()
+			res = append(res, r+" ; "+h.observe())
+		case g[0] == "pool" && len(g) == 5:
+			h.note(g[1])
+			h.note(g[2])
+			h.note(g[3])
 			r := h.child(op)
 			h.normalise()
 			res = append(res, r+" ; "+h.observe())
